@@ -251,7 +251,7 @@ def replay_cases(ctx, case_lines, exe='harness'):
     gp = os.path.join(ctx.work, f'replay{n}.go')
     lp = os.path.join(ctx.work, f'replay{n}.lean')
     open(cp, 'w').write('\n'.join(case_lines) + '\n')
-    rc, o, e = sh([os.path.join(GO, 'bin', exe), 'replay', '-cases', cp, '-res', gp], cwd=ctx.work, env=GOENV, timeout=1200)
+    rc, o, e = sh([os.path.join(GO, 'bin', exe), 'replay', '-cases', cp, '-res', gp], cwd=ctx.work, env=GOENV, timeout=180 if len(case_lines) <= 50 else 1200)
     if rc != 0:
         return [(c, 'res ? harness-failed', 'res ? -') for c in case_lines]
     run_driver(cp, lp)
